@@ -50,7 +50,8 @@ prop("C20",
 
 prop("C19",
      [r_hdrt.rule_catchall, r_hdrt.rule_total, r_hdrt.rule_steer_lookup, r_hdrt.rule_no_state, r_hdrt.rule_flag_forward,
-      r_sec.rule_end_test, r_sec.rule_scan, r_sec.rule_line_model, r_hdrt.rule_parser_stateless],
+      r_sec.rule_end_test, r_sec.rule_scan, r_sec.rule_line_model, r_hdrt.rule_parser_stateless, r_sec.rule_title_pred,
+      r_hdrt.rule_generator_resume],
      "Error-discipline analysis of the header loop (reader.parse_header_items_section): the call that parses a raw "
      "line is inside a try with a catch-all handler; by control dependence the handler raises only when "
      "ignore_header_errors is false, then raises LASHeaderError whose message derives (provenance) from the line, "
@@ -74,7 +75,7 @@ prop("C19",
 
 prop("C16",
      [r_wrf.rule_frame, r_wrf.rule_standardize, r_wrf.rule_refresh, r_wrf.rule_determinism, r_wl.rule_measure, r_wl.rule_copy_vers,
-      r_wrf.rule_snapshot, r_lp.rule_write_no_state, r_wrf.rule_frame_replace],
+      r_wrf.rule_snapshot, r_lp.rule_write_no_state, r_wrf.rule_frame_replace, r_wrf.rule_refresh_precision],
      "Frame condition by may-write effect summaries: the set of locations writer.write / LASFile.write may modify "
      "through the LASFile (access paths with aliasing through loop variables and properties, propagated over the "
      "resolved call graph; SectionItems/HeaderItem hooks by contract) is a subset of the documented side effects - "
@@ -204,7 +205,7 @@ prop("C05",
 prop("C06",
      [r_data.rule_null_guard, r_data.rule_null_table, r_data.rule_null_write, r_sec.rule_steer, r_data.rule_counter,
       r_data.rule_null_flat, r_num.rule_numlit, r_wl.rule_ord_table, r_wl.rule_key_norm, r_wl.rule_measure, r_lp.rule_views,
-      r_wrf.rule_determinism],
+      r_wrf.rule_determinism, r_data.rule_engine_args_agree],
      "Guard analysis of the NULL->NaN store in LASFile.read: the store `column[mask] = nan` must exist, its mask must be "
      "an exact `column == <value taken from ~Well NULL>` with no call and no tolerance/rounding function in its "
      "provenance (NULL.EXACT), and by control dependence it executes exactly under: the policy flag (third result of "
@@ -247,7 +248,7 @@ prop("C01",
       r_data.rule_counter, r_data.rule_null_flat, r_data.rule_read_subs, r_si.rule_compare, r_num.rule_numlit,
       r_data.rule_data_format, r_data.rule_wrap_consistent, r_wl.rule_ord_table, r_wl.rule_key_norm, r_sec.rule_section_type,
       r_lp.rule_write_no_state, r_data.rule_options_readonly, r_sec.rule_scan, r_lp.rule_views, r_num.rule_numlit_complete,
-      r_sec.rule_line_model],
+      r_sec.rule_line_model, r_wl.rule_loop_closures],
      "Write->read pairing clauses: lasio's own wrapped output is re-read with the declared curve count, never the sniffed "
      "per-line count (DATA.WRAP-COUNT, explicit-state search under WRAP == YES); the writer's TextWrapper has "
      "width=data_width, break_long_words=False, break_on_hyphens=False, so lines break only at the blanks between values "
@@ -284,7 +285,7 @@ prop("C02",
      [r_sec.rule_convention, r_sec.rule_end_test, r_sec.rule_line_normalise, r_data.rule_orient, r_data.rule_reshape,
       r_sec.rule_reseek, r_sec.rule_scan, r_data.rule_null_flat, r_data.rule_split, r_sec.rule_content_only_effects,
       r_data.rule_read_subs, r_data.rule_wrap_count, r_data.rule_space_tokens, r_data.rule_fast_tokens, r_data.rule_null_table,
-      r_data.rule_null_guard, r_data.rule_tokens_kept, r_sec.rule_line_model],
+      r_data.rule_null_guard, r_data.rule_tokens_kept, r_sec.rule_line_model, r_data.rule_engine_args_agree],
      "Engine-agreement clauses: both engines get the same line window - one interval convention for every section end and "
      "the matching affine skip_header = first+1 / max_rows = last-first after seek(0) in the fast engine (SEC.CONVENTION, "
      "SEC.SCAN); the reference engine and the sniffer count every physical line once, test for the section end on every "
@@ -349,7 +350,7 @@ prop("C12",
       r_wl.rule_measure, r_wl.rule_template, r_num.rule_curve_raw, r_hdrt.rule_steer_lookup,
       r_data.rule_wrap_consistent, r_data.rule_wrap_tokens, r_data.rule_orient, r_data.rule_reshape, r_data.rule_wrap_count,
       r_lp.rule_write_no_state, r_si.rule_pk_rebuild, r_data.rule_options_readonly, r_wl.rule_version_consistency,
-      r_data.rule_null_write, r_data.rule_data_format, r_data.rule_subs_source, r_hdrt.rule_parser_stateless],
+      r_data.rule_null_write, r_data.rule_data_format, r_data.rule_subs_source, r_hdrt.rule_parser_stateless, r_wl.rule_loop_closures],
      "Order-table agreement: the folded defaults.ORDER_DEFINITIONS has every version the writer admits, all four "
      "sections per version, well-formed (order, mnemonics) exceptions, 1.x ~Well = descr:value except STRT/STOP/STEP/NULL "
      "and 2.x/3.0 = value:descr throughout; reader (SectionParser.__init__) and writer (get_section_order_function) "
@@ -369,7 +370,7 @@ prop("C11",
       r_si.rule_pk_state, r_wrf.rule_refresh, r_wrf.rule_standardize, r_gr.rule_grammar, r_gr.rule_strip, r_wl.rule_key_norm,
       r_wl.rule_ord_bijection, r_data.rule_wrap_count, r_data.rule_wrap_tokens, r_data.rule_data_format, r_data.rule_wrap_consistent,
       r_lp.rule_write_no_state, r_si.rule_pk_rebuild, r_si.rule_pk_list_restore, r_num.rule_numlit, r_wl.rule_hdr_post,
-      r_wl.rule_version_consistency, r_wl.rule_ord_table],
+      r_wl.rule_version_consistency, r_wl.rule_ord_table, r_wl.rule_loop_closures],
      "Necessary conditions of the read->write fixed point only: the writer's template puts '.' directly before the unit "
      "and ' : ' before the tail, which the reader's structurally decided grammar splits back (WR.TEMPLATE, HDR.GRAMMAR) - "
      "no fields migrating between unit, value and description requires also that widths are measured on final values and "
@@ -410,7 +411,7 @@ prop("C14",
 
 prop("C10",
      [r_lp.rule_pu_global, r_lp.rule_pu_fresh, r_lp.rule_pu_channel, r_lp.rule_pu_table_alias, r_lp.rule_pu_rewind, r_hdrt.rule_no_state,
-      r_lp.rule_pu_cookie, r_lp.rule_pu_channel_table],
+      r_lp.rule_pu_cookie, r_lp.rule_pu_channel_table, r_ex.rule_fresh_document],
      "Purity by effect summaries: none of the functions reachable from LASFile.__init__/read (resolved call graph incl. "
      "property/__setattr__ hooks; closure size recorded) writes a module-level object, a class attribute or a mutable "
      "default argument - an embedded impure function must be flagged on every run as positive control (PU.GLOBAL); "
@@ -428,7 +429,7 @@ prop("C10",
 
 prop("C18",
      [r_ex.rule_json_total, r_ex.rule_json_nan, r_ex.rule_isnan_guard, r_ex.rule_depth, r_ex.rule_csv, r_ex.rule_xlsx,
-      r_ex.rule_df, _to_csv_typestate, r_ex.rule_dictview, r_ex.rule_table_literals],
+      r_ex.rule_df, _to_csv_typestate, r_ex.rule_dictview, r_ex.rule_table_literals, r_ex.rule_fresh_document],
      "Export clauses: every CFG path through JSONEncoder.default returns a value, raises or delegates to the base class "
      "(no fall-through to null) and numpy integers are converted (EX.JSON-TOTAL); curve samples and header values are "
      "placed in the JSON document only through an unconditional comprehension whose element is the NaN->None map "
@@ -546,7 +547,36 @@ ALSO4 = {
            "of the header loop (RecursionError).",
     "C20": "Round 4: ExitStack registration (`stack.callback(h.close)`, `stack.enter_context(open(...))`) counts as release on every exit.",
 }
+ALSO6 = {
+    "C01": "Round 6: WR.LATE-BINDING (no stored per-column formatter reads a loop variable late), DATA.COUNTER second bookkeeping form "
+           "(NaN fill over range(<columns assigned>, <curves declared>)).",
+    "C02": "Round 6: SEC.RESEEK position (seek() inside the data-section loop is not given the leaked offset of an earlier loop), "
+           "DATA.ENGINE-ARGS (all call sites of the reference engine pass the same arguments).",
+    "C03": "Round 6: ORD.TABLE content (upper- and lower-case spellings of the 1.x ~Well exceptions).",
+    "C05": "Round 6: SEC.RESEEK position, SEC.ROUTE through routing helpers and class-level dispatch tables (LAS-3 priority, "
+           "underscore guard confined to ~C/~P).",
+    "C06": "Round 6: DATA.ENGINE-ARGS, NULL.GUARD flag carried by a sentinel value (`null if flag else None`).",
+    "C07": "Round 6: DATA.SUBS-AGREE (value numbering on the CFG: the reference engine reads with the substitution list the sniffer "
+           "last counted the columns with), HDR.CURVE-RAW (a ~Curves value never reaches num()).",
+    "C09": "Round 6: DATA.SUBS-AGREE.",
+    "C10": "Round 6: PU.GLOBAL class-level containers mutated through instances, PU.CHANNEL BOM sample independent of every option, "
+           "EX.FRESH-DOC.",
+    "C11": "Round 6: WR.LATE-BINDING.",
+    "C12": "Round 6: WR.LATE-BINDING, DATA.WRAP-COUNT through column-count helpers (closures, tuple results).",
+    "C13": "Round 6: SI.LIST-PRIMITIVES by-value remove/index/count (items are empty OrderedDicts: all equal), SI.ACCESSORS.",
+    "C14": "Round 6: SI.LIST-PRIMITIVES by-value primitives, SI.SUFFIX-ALGO flat (non-recursive) form.",
+    "C15": "Round 6: get(add=True) appends only on the not-in-self side of the membership test; a hand-written integer range test "
+           "must be exactly -n <= key < n (also inside a private helper that is handed the key).",
+    "C16": "Round 6: the refresh is not handed the data fmt; index[1] is not read before STRT/STOP are derived unless under the "
+           "single-sample test.",
+    "C18": "Round 6: EX.FRESH-DOC (no shallow copy of a nested shared template), EX.CSV header rows produced by generator methods.",
+    "C19": "Round 6: SEC.TITLE-PRED (a title test written as a regular expression must mean white space then '~', and be applied with "
+           "match()), HDR.GEN-RESUME (no loop asks a generator for more after catching an exception out of it).",
+    "C20": "Round 6: a `yield` inside the with-statement that owns a handle; `with <handle> as f:` releases on every exit.",
+}
 for _pid, _txt in ALSO.items():
+    PROPS[_pid]["explanation"] += " " + _txt
+for _pid, _txt in ALSO6.items():
     PROPS[_pid]["explanation"] += " " + _txt
 for _pid, _txt in ALSO4.items():
     PROPS[_pid]["explanation"] += " " + _txt
@@ -554,5 +584,5 @@ for _pid, _txt in ALSO3.items():
     PROPS[_pid]["explanation"] += " " + _txt
 for _pid in PROPS:
     PROPS[_pid]["explanation"] += (" The source is analysed after a semantics-preserving normalisation (private literal constants "
-                                   "propagated, private helpers inlined, explicit iterator loops re-sugared); where a construct a rule needs "
+                                   "propagated; private helpers, new helpers, local closures and one-loop generators expanded; guard clauses, found-flags, sentinels and local dict bundles canonicalised; explicit iterator loops re-sugared); where a construct a rule needs "
                                    "is not present in a form it understands the rule reports UNDECIDED (listed in this evidence) instead of a verdict.")
